@@ -4,12 +4,12 @@
  * procedure_unknown / version_indication_received / remote_features_received / phy_update, handle_connection_events, details::ring<4,event_data>
  * (try_push / try_pop) — the real base class of the real link layer object (shim ll_d, VFD_CFG 0).
  *
- * case parameters: NOPS number of operations (1..8), CAP
- * symbolic: per operation: raise an event (kind 1..10, argument) or let the application poll (handle_connection_events)
+ * case parameters: NOPS number of operations (1..8), POLLS bit mask: operation i is a poll of the application (handle_connection_events),
+ *                  otherwise an event is raised (concrete schedule: with a symbolic schedule the ring indices become symbolic, 13 min / 3 GB for NOPS=4)
+ * symbolic: per raised event: kind 1..10 (all callbacks share the ring) and argument
  * Oracle: FIFO model without capacity limit: at every poll the callbacks are exactly the events raised since the last poll, in order, with
  *         their arguments.  Property statement: every lifecycle event is reported exactly once and in order.
- * The ring holds max_events = 4 events: CAP = 4 restricts the histories to at most 4 raised events between two polls (what the link layer
- * guarantees, see c29_burst); CAP = 99 does not.
+ * The ring holds max_events = 4 events: schedules with more than 4 raised events between two polls overflow it.
  */
 #include "c27_common.h"
 
@@ -19,12 +19,12 @@ void harness(void)
 {
     vf_global_ctors();
     const unsigned nops = (unsigned)CASE(NOPS);
-    const unsigned cap = (unsigned)CASE(CAP);
+    const unsigned polls = (unsigned)CASE(POLLS);
 
     env_reset();
 
     unsigned kind[MAXN], arg[MAXN]; int poll[MAXN];
-    for (unsigned i = 0; i < MAXN; ++i) { kind[i] = (unsigned)in_range(1, 10); arg[i] = in_u8(); poll[i] = in_bool(); }
+    for (unsigned i = 0; i < MAXN; ++i) { kind[i] = (unsigned)in_range(1, 10); arg[i] = in_u8(); poll[i] = (polls >> i) & 1; }
 
     /* model: events raised and not yet delivered */
     unsigned mk[MAXN], ma[MAXN], mn = 0, delivered = 0;
@@ -44,7 +44,6 @@ void harness(void)
             }
             delivered += mn; mn = 0;
         } else {
-            ASSUME(mn < cap);
             vfd_cb_push(kind[i], arg[i]);
             mk[mn] = kind[i]; ma[mn] = arg[i]; ++mn;
         }
